@@ -20,7 +20,7 @@ CLAIM = dict(
           "buffers compared), supplied output, inner-first evaluation through both layouts, against element-wise reads of the "
           "lazy view and against the extracted evaluator model; and, for operands of all 19 ndarray kinds (fixed, bounded and clipped buffers "
           "and shapes) in kind pairs under one- and two-sided broadcasting and 3-operand where, by C11's kind-pair driver whose rt= / new= / "
-          "old= fields state C10 directly; 3 compositions with EMPTY results (extent 0); a supplied output of the same element count but another shape must stay untouched;  (shape and all elements of eval(view) with the default resolver of array::fn and with the "
+          "old= fields state C10 directly; 3 compositions with EMPTY results (extent 0); a supplied output of the same element count but another shape must stay untouched; supplied outputs of other container kinds (nested std::vector, flat std::vector) are filled like the library's own;  (shape and all elements of eval(view) with the default resolver of array::fn and with the "
           "legacy resolver of eval(view) equal the lazy view's)."),
     ref="5.10", technique="Coq proof (write-fold invariant + C01 injectivity) + two-stage differential correspondence",
     extra="Result kinds other than the run-time shaped ndarray_t (fixed / hybrid / clipped result objects whose resize can be refused) are C11's subject; here the resize is assumed to succeed (theorem hypothesis ashape out = vshape v).")
